@@ -66,6 +66,15 @@ func plan(variant int) ([]wop, []map[string]string) {
 			{kind: "sync", list: objs(a("1", "l=1"))},
 			{kind: "update", ev: kcache.NewEvent(kcache.EventTypeUpdate, a("3", "l=1"))},
 		}
+	case 4: // long lists (300 objects): a relist is applied as a whole, however long it is
+		gen := func(rv string) []metav1.Object {
+			var l []metav1.Object
+			for i := 0; i < 300; i++ {
+				l = append(l, hx.Pod("ns", fmt.Sprintf("o%03d", i), rv, "l=1"))
+			}
+			return l
+		}
+		ops = []wop{{kind: "sync", list: gen("1")}, {kind: "sync", list: gen("2")}, {kind: "sync", list: gen("3")[:150]}}
 	default: // relist + refilter back-to-back replacing everything
 		ops = []wop{
 			{kind: "sync", list: objs(a("1", "l=1"))},
@@ -491,6 +500,7 @@ func Property() runner.Property {
 				out = append(out, scenario(v, 2, "list,geta,getb,list", "S2", 2))
 			}
 			out = append(out, fscenario(1, 2, "S2", 3), fscenario(2, 2, "S2", 3), fscenarioDel(true, 1, 2, "S2", 3))
+			out = append(out, scenario(4, 1, "list,list", "S2", 3), scenario(4, 2, "list", "S2", 2))
 			if tier == "thorough" {
 				out = append(out, fscenario(1, 2, "S1", 0), fscenario(2, 2, "S2", 4), fscenario(3, 2, "S2", 3), fscenarioDel(true, 2, 2, "S2", 4))
 				for v := 0; v < 3; v++ {
